@@ -154,6 +154,7 @@ pub fn run(args: &Args) -> Report {
         let ctxlen = rng.usize_below(80);
         let chunk_counter = rng.u64() >> rng.below(64);
         let guts_len = rng.usize_below(1025);
+        let prev_len = if rng.chance(1, 3) { 1025 + rng.usize_below(40 * 1024) } else { 0 };
         let mut dbg: Vec<[String; 6]> = Vec::new();
         let mut fail: Option<(String, String)> = None;
         for trial in 0..2 {
@@ -165,6 +166,16 @@ pub fn run(args: &Args) -> Report {
             };
             let mut h = api::hasher_for(&mode);
             let mut m = Stream::new(&mode);
+            // a previous life of the same object (public: its length): another message absorbed and
+            // then reset() away. Its chaining values are secrets too, and reset() need not wipe them,
+            // but zeroize() must.
+            let mut prev = Stream::new(&mode);
+            if prev_len > 0 {
+                let d = rng.bytes(prev_len);
+                h.update(&d);
+                prev.push(&d);
+                h.reset();
+            }
             for &n in &lens {
                 let d = rng.bytes(n);
                 h.update(&d);
@@ -248,6 +259,30 @@ pub fn run(args: &Args) -> Report {
                         }
                         if hb.iter().any(|b| *b != 0) && hv != [0u8; 32] {
                             fail = Some(("zeroize/hash-residue".into(), format!("after zeroize() the Hash object holds {}", hex(&hb))));
+                        }
+                    }
+                    Err(p) => fail = Some(("zeroize/panic".into(), p)),
+                }
+                // ---- (d) the object itself (not a clone: a clone copies only the live stack
+                // entries), wiped in place after everything else has been observed -----------
+                let mut all = secrets.clone();
+                if prev_len > 0 {
+                    all.extend(hasher_secrets(&mode, &mut prev));
+                }
+                let inplace = {
+                    let mut hz = unsafe { core::ptr::read(&h) }; // bitwise image, stale slots included
+                    let r = guarded(|| {
+                        hz.zeroize();
+                        raw_bytes(&hz)
+                    });
+                    core::mem::forget(hz);
+                    r
+                };
+                match inplace {
+                    Ok(rb) => {
+                        rep.count("object_bytes_scanned", rb.len() as u64);
+                        if let Some((off, w)) = scan(&rb, &all) {
+                            fail = Some(("zeroize/hasher-residue".into(), format!("after zeroize() the Hasher (bitwise image of the used object, previous life of {} bytes before reset(), then inputs {:?}) still holds secret-derived bytes {} at offset {} of {}", prev_len, lens, hex(&w), off, rb.len())));
                         }
                     }
                     Err(p) => fail = Some(("zeroize/panic".into(), p)),
